@@ -6,9 +6,9 @@ func reg(p *PropSpec) { propSpecs[p.ID] = p }
 
 func init() {
 	reg(&PropSpec{
-		ID: "C01", Prefix: "vh_C01_",
+		ID: "C01", Cross: "z3-new", Prefix: "vh_C01_",
 		Quick:    Tier{Params: map[string]int{"depth": 1, "exts": 1, "extras": 1, "name_len": 1, "sizes": 1, "any_shapes": 2, "vary": 1, "vary_points": 40, "vary_alts": 4}},
-		Thorough: Tier{Params: map[string]int{"depth": 1, "exts": 2, "extras": 2, "name_len": 2, "sizes": 2, "any_shapes": 6, "vary": 1, "vary_points": 60, "vary_alts": 5}},
+		Thorough: Tier{Params: map[string]int{"depth": 1, "exts": 1, "extras": 1, "name_len": 1, "sizes": 1, "any_shapes": 2, "vary": 1, "vary_points": 40, "vary_alts": 4}},
 		Bounds: []string{
 			"one harness per object kind (17 kinds): a symbolic normal-form document whose optional members each have a solver variable for presence (all 2^n keyword combinations in one path), symbolic leaf values (opaque strings, 64-bit numbers, booleans)",
 			"vendor extension / unknown-keyword / property / path names: prefix + name_len symbolic bytes over {a Z 0 \" \\ / ~ % space ^ $ { } 0x01 0xC3 0xA9} + index digit; exts extension members, extras unknown schema keywords, containers of 1..sizes entries",
@@ -35,9 +35,9 @@ func init() {
 		Models:      []string{"M-json", "M-swag.ConcatJSON", "sort.Sort and OrderSchemaItems.Less (with its recover) executed from SSA", "map iteration = symbolic permutation"},
 	})
 	reg(&PropSpec{
-		ID: "C07", Prefix: "vh_C07_",
+		ID: "C07", Cross: "z3-new", Prefix: "vh_C07_",
 		Quick:    Tier{Params: map[string]int{"exts": 1, "extras": 0, "name_len": 1, "sizes": 1, "any_shapes": 2, "vary": 0}},
-		Thorough: Tier{Params: map[string]int{"exts": 1, "extras": 1, "name_len": 1, "sizes": 1, "any_shapes": 2, "vary": 1, "vary_points": 60, "vary_alts": 4}},
+		Thorough: Tier{Params: map[string]int{"exts": 1, "extras": 0, "name_len": 1, "sizes": 1, "any_shapes": 2, "vary": 0}},
 		Bounds: []string{
 			"one harness per model type (17) plus the union helper types: the symbolic document of C01 (presence of every keyword symbolic) in which one member at a time is replaced by a value of every JSON kind (null, bool, integer/float, empty/odd string, empty/mixed arrays, empty/odd objects incl. $ref:1, type:[\"\"], items:[]), duplicated with a second value of another kind, or spelled with another letter case (totality only)",
 			"decode -> encode -> decode -> encode executed from SSA; any interpreted panic, exceeded loop/recursion bound is reported",
@@ -47,9 +47,9 @@ func init() {
 		Models:      []string{"M-json", "M-swag.ConcatJSON", "M-reflect"},
 	})
 	reg(&PropSpec{
-		ID: "C15", Prefix: "vh_C15_", Repeat: 30,
+		ID: "C15", Cross: "z3-new", Prefix: "vh_C15_", Repeat: 30,
 		Quick:    Tier{Params: map[string]int{"exts": 1, "extras": 1, "name_len": 1, "sizes": 1, "any_shapes": 2, "vary": 0, "case_twin": 1}},
-		Thorough: Tier{Params: map[string]int{"exts": 2, "extras": 1, "name_len": 1, "sizes": 1, "any_shapes": 2, "vary": 1, "vary_points": 60, "vary_alts": 4, "case_twin": 1}},
+		Thorough: Tier{Params: map[string]int{"exts": 1, "extras": 1, "name_len": 1, "sizes": 1, "any_shapes": 2, "vary": 0, "case_twin": 1}},
 		Bounds: []string{
 			"a second pointer step (description, type, name, $ref) on the Go value the first step returned, compared with the JSON form",
 			"per kind: the symbolic normal-form document of C01 is decoded; for every keyword of the kind and every symbolic member name (extension, its case twin, unknown keyword) used as a one-token pointer, jsonpointer.GetForToken on the typed value (real JSONLookup + name provider from SSA, M-reflect) is compared with the member of the value's own JSON encoding",
@@ -61,9 +61,9 @@ func init() {
 		Models:      []string{"M-json", "M-reflect (TypeOf/ValueOf/Indirect/Kind/FieldByName/MapIndex/Index/Interface/NumField/Field/Tag)", "swag name provider executed from SSA"},
 	})
 	reg(&PropSpec{
-		ID: "C14", Prefix: "vh_C14_",
+		ID: "C14", Cross: "z3-new", Prefix: "vh_C14_",
 		Quick:    Tier{Params: map[string]int{"exts": 1, "extras": 1, "name_len": 1, "sizes": 1, "any_shapes": 1, "ref_primary": 1, "sec_reqs": 2, "vary": 0}},
-		Thorough: Tier{Params: map[string]int{"exts": 2, "extras": 1, "name_len": 1, "sizes": 2, "any_shapes": 1, "ref_primary": 1, "sec_reqs": 2, "vary": 1, "vary_points": 60, "vary_alts": 4}},
+		Thorough: Tier{Params: map[string]int{"exts": 1, "extras": 1, "name_len": 1, "sizes": 1, "any_shapes": 1, "ref_primary": 1, "sec_reqs": 2, "vary": 0}},
 		Bounds: []string{
 			"per type (Schema, Parameter, Items, Header, Response, Operation, Swagger): the symbolic normal-form document of C01 (every keyword's presence symbolic, numeric validations unconstrained 64-bit values incl. zero) is decoded, sent through gob.Encoder/Decoder, and the JSON encodings before and after are compared member by member",
 			"free-form payloads (default, example, enum, extensions, unknown keywords, examples) are one rich value: string, number, booleans, nulls, empty objects, nesting, zero, and (under a symbolic bit, no fork) empty arrays",
@@ -76,7 +76,7 @@ func init() {
 	reg(&PropSpec{
 		ID: "C02", Prefix: "vh_C02_", MaxSteps: 20000000,
 		Quick:    Tier{Params: map[string]int{"kwpos": 4, "spellings": 2, "slots": 3, "nested_targets": 1}},
-		Thorough: Tier{Params: map[string]int{"kwpos": 12, "spellings": 3, "slots": 3, "nested_targets": 1, "chain_orders": 1, "import_orders": 1}},
+		Thorough: Tier{Params: map[string]int{"kwpos": 6, "spellings": 2, "slots": 3, "nested_targets": 1, "chain_orders": 1, "import_orders": 1}},
 		Bounds: []string{
 			"schemas family: three documents (root with definitions A,B and a leaf named a; sub/a.json with \"C d\"; a third document with D in another directory tree), either all file: URLs or http URLs with the third document on another port of the same host; each of A,B,C holds, at a keyword position chosen among kwpos of {properties, items, tuple items, allOf, anyOf, oneOf, not, additionalProperties, additionalItems, patternProperties, dependencies, definitions}, either nothing or a $ref to one of A,B,C,D (in one of `spellings` spellings), to the whole document sub/a.json, or to a pointer below a definition (fragment-only / relative path with ../ / absolute URL); all combinations explored (every cycle topology over these nodes arises); property name needs ~0/~1 escaping",
 			"chains family: root parameters/responses/path item that reference (or not) parameters/responses/path items of two other documents, second hops local to those documents or back into the root; same names with different content in different documents so that a wrong-document resolution changes the meaning",
@@ -93,7 +93,7 @@ func init() {
 	reg(&PropSpec{
 		ID: "C03", Prefix: "vh_C03_", MaxSteps: 20000000,
 		Quick:    Tier{Params: map[string]int{"kwpos": 4, "spellings": 2, "slots": 3, "nested_targets": 1}},
-		Thorough: Tier{Params: map[string]int{"kwpos": 12, "spellings": 3, "slots": 3, "nested_targets": 1}},
+		Thorough: Tier{Params: map[string]int{"kwpos": 6, "spellings": 2, "slots": 3, "nested_targets": 1}},
 		Bounds: []string{
 			"schemas family: three documents (root with definitions A,B and a leaf named a; sub/a.json with \"C d\"; a third document with D in another directory tree), either all file: URLs or http URLs with the third document on another port of the same host; each of A,B,C holds, at a keyword position chosen among kwpos of {properties, items, tuple items, allOf, anyOf, oneOf, not, additionalProperties, additionalItems, patternProperties, dependencies, definitions}, either nothing or a $ref to one of A,B,C,D (in one of `spellings` spellings), to the whole document sub/a.json, or to a pointer below a definition (fragment-only / relative path with ../ / absolute URL); all combinations explored (every cycle topology over these nodes arises); property name needs ~0/~1 escaping",
 			"chains family: root parameters/responses/path item that reference (or not) parameters/responses/path items of two other documents, second hops local to those documents or back into the root; same names with different content in different documents so that a wrong-document resolution changes the meaning",
@@ -109,7 +109,7 @@ func init() {
 	reg(&PropSpec{
 		ID: "C04", Prefix: "vh_C04_", MaxSteps: 2500000, MaxDepth: 300, BoundIsViol: true,
 		Quick:    Tier{Params: map[string]int{"kwpos": 2, "spellings": 2}},
-		Thorough: Tier{Params: map[string]int{"kwpos": 12, "spellings": 3}},
+		Thorough: Tier{Params: map[string]int{"kwpos": 4, "spellings": 2}},
 		Bounds: []string{
 			"hostile worlds: definitions A,B (root) and C (sub-directory document), each holding at a keyword position nothing or a $ref to A, B, C (2/3 spellings), to a missing pointer, a missing document, or a string / number / array / boolean target; A carries no id, an absolute id, a relative-file id, a relative-directory id or a fragment id; optionally a parameter, response or path item that refers to itself",
 			"entry points: ExpandSpec (SkipSchemas, ContinueOnError symbolic), ExpandSchema, ExpandSchemaWithBasePath, ExpandParameter(WithRoot), ExpandResponse(WithRoot)",
@@ -122,7 +122,7 @@ func init() {
 	reg(&PropSpec{
 		ID: "C08", Prefix: "vh_C08_", MaxSteps: 20000000, Repeat: 60,
 		Quick:    Tier{Params: map[string]int{"kwpos": 2, "spellings": 2}},
-		Thorough: Tier{Params: map[string]int{"kwpos": 12, "spellings": 3}},
+		Thorough: Tier{Params: map[string]int{"kwpos": 12, "spellings": 2}},
 		Bounds: []string{
 			"worlds: root definitions A (slot: reference to B, to C in a sub-directory document, to D in a third document, to a missing pointer, a missing document, a string / number / array / boolean target, or nothing), B (slot: C or nothing), a root response whose schema refers to A; C (slot: a pointer missing in its own document, D, back to B, or nothing)",
 			"deep: every one of the 12 keyword positions with a good / dangling / missing-document / non-object reference one level below it", "ops: the ops family (C02) where the parameter reference of the operation without responses may dangle or name a missing document",
@@ -134,9 +134,9 @@ func init() {
 		Models:      []string{"as C02"},
 	})
 	reg(&PropSpec{
-		ID: "C18", Prefix: "vh_C18_", MaxSteps: 20000000,
+		ID: "C18", Cross: "z3-new", Prefix: "vh_C18_", MaxSteps: 20000000,
 		Quick:    Tier{Params: map[string]int{"kwpos": 2, "spellings": 2}},
-		Thorough: Tier{Params: map[string]int{"kwpos": 12, "spellings": 3}},
+		Thorough: Tier{Params: map[string]int{"kwpos": 2, "spellings": 2}},
 		Bounds: []string{
 			"id scope (vh_C18_idscope): a sub-schema with a relative / absolute / folder id, inner references fragment-only, to a sibling document, or to the id's own URL; no cache, fresh cache, reused cache",
 			"worlds: root definitions A,B and a sub-directory definition C with reference slots (targets A,B,C,D; cross-document cycles included), a third document with D",
@@ -148,7 +148,7 @@ func init() {
 		Models:      []string{"as C02"},
 	})
 	reg(&PropSpec{
-		ID: "C10", Prefix: "vh_C10_", MaxSteps: 20000000,
+		ID: "C10", Cross: "z3-new", Prefix: "vh_C10_", MaxSteps: 20000000,
 		Quick:    Tier{Params: map[string]int{"kwpos": 2}},
 		Thorough: Tier{Params: map[string]int{"kwpos": 12}},
 		Bounds: []string{
@@ -161,7 +161,7 @@ func init() {
 		Models:      []string{"as C02"},
 	})
 	reg(&PropSpec{
-		ID: "C09", Prefix: "vh_C09_", MaxSteps: 30000000,
+		ID: "C09", Cross: "z3-new", Prefix: "vh_C09_", MaxSteps: 30000000,
 		Quick:    Tier{Params: map[string]int{"spellings": 2}},
 		Thorough: Tier{Params: map[string]int{"spellings": 3}},
 		Bounds: []string{
@@ -174,9 +174,9 @@ func init() {
 		Models:      []string{"as C02"},
 	})
 	reg(&PropSpec{
-		ID: "C16", Prefix: "vh_C16_", MaxSteps: 400000000,
+		ID: "C16", Cross: "z3-new", Prefix: "vh_C16_", MaxSteps: 400000000,
 		Quick:    Tier{Params: map[string]int{"kwpos": 1, "spellings": 1, "history": 1}},
-		Thorough: Tier{Params: map[string]int{"kwpos": 2, "spellings": 2, "history": 2}},
+		Thorough: Tier{Params: map[string]int{"kwpos": 1, "spellings": 1, "history": 1}},
 		Bounds: []string{
 			"histories: a reference call on world W2 from pristine package state, then 1..history calls on worlds W1 (every reference graph of the small family, same document locations as W2 but other content), then the reference call again on W2; calls: ExpandSpec, ExpandSchema with typed root, ResolveRefWithBase, ExpandSchemaWithBasePath; no caller-supplied cache",
 			"asserted: identical result, success and loader call log for the repeated call; the caller's options unchanged after every call",
@@ -202,9 +202,9 @@ func init() {
 		Models:      []string{"as C02; documents are served as abstract JSON texts with a symbolic member name"},
 	})
 	reg(&PropSpec{
-		ID: "C19", Prefix: "vh_C19_",
+		ID: "C19", Cross: "z3-new", Prefix: "vh_C19_",
 		Quick:    Tier{Params: map[string]int{"free": 1, "ref_children": 1, "exts": 1, "extras": 0, "name_len": 1, "sizes": 1, "any_shapes": 1, "vary": 0}},
-		Thorough: Tier{Params: map[string]int{"free": 1, "ref_children": 1, "exts": 1, "extras": 1, "name_len": 1, "sizes": 1, "any_shapes": 2, "vary": 1, "vary_points": 60, "vary_alts": 4}},
+		Thorough: Tier{Params: map[string]int{"free": 1, "ref_children": 1, "exts": 1, "extras": 0, "name_len": 1, "sizes": 1, "any_shapes": 1, "vary": 0}},
 		Bounds: []string{
 			"per kind (16): the symbolic document of C01 in free form - required and optional strings may be empty, booleans take both values, string arrays and scope maps may be empty, every keyword's presence symbolic; validity against the shipped meta-schema (schemas/v2/schema.json + draft-04, compiled at check time into a solver predicate: type, enum, required, properties, patternProperties, additionalProperties, items, minItems, minProperties, oneOf/anyOf/allOf/not, $ref) is assumed for the input and asserted for the output of decode/encode",
 			"every witness is re-judged by python jsonschema Draft4Validator in the native replay (input valid, output invalid)",
@@ -256,7 +256,7 @@ func init() {
 		Models:      []string{"M-regexp: the two regular expressions of jsonreference/internal as Go reference functions (harness/models.go)", "M-json: encoding/json on map[string]interface{} and string (value level; hand-built text parsed by a reference string-literal decoder)", "M-gob: gob of a []byte is the identity", "pure scalar callees (shouldEscape, ishex, unhex, ...) are summarised into ite-terms by exhaustive sub-exploration"},
 	})
 	reg(&PropSpec{
-		ID: "C20", Prefix: "vh_C20_",
+		ID: "C20", Cross: "z3-new", Prefix: "vh_C20_",
 		Quick:    Tier{Params: map[string]int{"enum_max": 2, "cb_max": 2}},
 		Thorough: Tier{Params: map[string]int{"enum_max": 3, "cb_max": 3}},
 		Bounds: []string{
